@@ -72,7 +72,10 @@ NONLINEAR = [
 
 CTX_NAMES = ['cx', 'cx1', 'c_x', 'cxx']
 CONTEXTS = ['%s**2', '-%s**2 + 1.0', '0.001*%s**3', '%s*%s', '1.0/(1.0 + %s**2)', '-%s', '3.0 - %s', '2.0 - -%s',
-            'abs(%s)', '%s/2.0', '2.0*%s', '(%s)', '10.0/(1.0 + %s*%s)', '0.5**2*%s', '1.0 -%s']
+            'abs(%s)', '%s/2.0', '2.0*%s', '(%s)', '10.0/(1.0 + %s*%s)', '0.5**2*%s', '1.0 -%s',
+            # defined in every period k >= 1 but not at k=0 when the variable starts at zero (the k=0 pass leaves such
+            # a variable at its default, with or without reduction)
+            'log(abs(%s) + k)', 'sqrt(%s*%s + k - 0.5)', 'log10(abs(%s) + 2.0*k)']
 
 USER_FUNCS = {'f_half': (lambda v: 0.5 * v), 'f_cap': (lambda v: min(v, 10.0))}
 
